@@ -43,6 +43,8 @@ pub enum K {
     Rounds, // macro: several rounds of "everyone edits and commits, then everyone exchanges with everyone" (blocks with 3+ parents)
     Burst, // macro: a long run of successive small edits of the same objects (revision indices >= 10, >= 100)
     SameEdit,
+    Resubmit, // macro: a document submitted, other work staged and exported and discarded, the same document submitted again, the export replayed, the same document submitted once more (it must be what is read)
+    SnapConflict, // macro: a full snapshot taken while an array is in conflict, committed; a peer that has not seen it extends the old winner; the snapshot taker learns that edit
     PastStage, // macro: staged edits exported and discarded, time travel to an older head set, the export replayed and committed there (a block whose records build on revisions of a block that is not its ancestor), travel to the new heads, reload
     StaleStage, // macro: staged edits exported and discarded; a concurrent committed edit of the same objects arrives and is refreshed in; the export is replayed onto the moved-on state, then discarded again or committed
     Twins, // macro: the same content reached over two edits on one replica and one edit on another (equal-content leaves with different identifiers), resolved independently and differently on both, exchanged, edited again
@@ -110,7 +112,7 @@ pub fn profile_for(prop: &str, variant: u64) -> Profile {
             w[K::TravelRedo as usize] = 1;
             w[K::Partition as usize] = 2;
             w[K::Heal as usize] = 2;
-            w[K::ReloadUntil as usize] = 2;
+            w[K::ReloadUntil as usize] = 5;
             w[K::Send as usize] = 14;
             p.converge_end = 90;
         }
@@ -160,6 +162,7 @@ pub fn profile_for(prop: &str, variant: u64) -> Profile {
             w[K::EditCommit as usize] = 10;
             w[K::Read as usize] = 2;
             w[K::Burst as usize] = 2;
+            w[K::Resubmit as usize] = 5;
             p.converge_end = 5;
         }
         "C05" | "C19" => {
@@ -262,6 +265,7 @@ pub fn profile_for(prop: &str, variant: u64) -> Profile {
             w[K::ObjOp as usize] = 4;
             w[K::Diverge as usize] = 24;
             w[K::Snapshot as usize] = 10;
+            w[K::SnapConflict as usize] = 3;
             w[K::Meld as usize] = 10;
             w[K::Refresh as usize] = 12;
             w[K::Reload as usize] = 5;
@@ -331,6 +335,7 @@ pub fn profile_for(prop: &str, variant: u64) -> Profile {
             w[K::Update as usize] = 40;
             w[K::EditCommit as usize] = 20;
             w[K::Snapshot as usize] = 6;
+            w[K::SnapConflict as usize] = 3;
             w[K::Restart as usize] = 5;
             w[K::Resolve as usize] = 0;
             p.len = (10, 60);
@@ -360,6 +365,7 @@ pub fn profile_for(prop: &str, variant: u64) -> Profile {
             w[K::StageSave as usize] = 2;
             w[K::StageRestore as usize] = 3;
             w[K::ObjOp as usize] = 3;
+            w[K::SnapConflict as usize] = 6;
         }
         _ => {}
     }
@@ -407,7 +413,9 @@ pub fn make_cfg(prop: &str, run_seed: u64) -> (RunCfg, Gen) {
     if prop == "C08" {
         doc.root_ids = rng.chance(1, 4);
     }
-    if ["C06", "C16", "C04", "C01", "C12", "C18", "C13"].contains(&prop) && run_seed % 12 == 7 {
+    // (not in the sched build: every lock operation there is a scheduling point of a simulated thread
+    // with its own stack; large documents times long bursts exhaust time and memory)
+    if !cfg!(feature = "sched") && ["C06", "C16", "C04", "C01", "C12", "C18", "C13"].contains(&prop) && run_seed % 12 == 7 {
         // large arrays (merge and edit-script code has size-dependent paths), edited in many places at once
         doc.max_elems = rng.range(36, 60);
         doc.id_pool = doc.max_elems + rng.range(8, 20);
@@ -893,6 +901,63 @@ impl Gen {
                     v
                 }
             }
+            x if x == K::Resubmit as usize => {
+                if w.replicas[r].time_travel {
+                    vec![Op::Reload { r }]
+                } else {
+                    let mut v = vec![];
+                    let d1 = self.next_doc(w, r);
+                    let mut d2 = d1.clone();
+                    docgen::mutate(&mut self.rng, &cfg, &mut d2);
+                    docgen::mutate(&mut self.rng, &cfg, &mut d2);
+                    v.push(Op::Update { r, doc: d1.clone(), twice: false });
+                    if self.rng.chance(1, 2) {
+                        v.push(Op::Commit { r, info: None });
+                    }
+                    v.push(Op::Update { r, doc: d2, twice: false });
+                    v.push(Op::StageSave { r, keep: false });
+                    v.push(Op::Update { r, doc: d1.clone(), twice: false });
+                    v.push(Op::StageRestore { r, older: false });
+                    v.push(Op::Update { r, doc: d1, twice: self.rng.chance(1, 2) });
+                    v
+                }
+            }
+            x if x == K::SnapConflict as usize => {
+                if n < 2 || w.replicas[r].time_travel || w.replicas[other].time_travel {
+                    vec![Op::Reload { r }]
+                } else {
+                    let mut v = vec![];
+                    for q in [r, other] {
+                        if self.staging(w, q) {
+                            v.push(Op::Commit { r: q, info: None });
+                        }
+                    }
+                    v.extend([Op::Meld { r, from: other }, Op::Refresh { r }, Op::Meld { r: other, from: r }, Op::Refresh { r: other }]);
+                    let base = self.next_doc(w, r);
+                    // both insert into the first array; `other` will append once more afterwards
+                    let with = |doc: &Value, id: &str, front: bool| -> Value {
+                        let mut d = doc.clone();
+                        let known = docgen::tracked_ids(&d).iter().any(|x| x == id);
+                        if let Some(Value::Array(a)) = d.as_object_mut().and_then(|o| o.get_mut(docgen::ARRAY_KEYS[0])) {
+                            if !known {
+                                let e = json!({"_id": id, "v": id});
+                                if front { a.insert(0, e) } else { a.push(e) }
+                            }
+                        }
+                        d
+                    };
+                    let (mine, theirs) = (with(&base, "snap-p", true), with(&base, "snap-q", false));
+                    v.extend([Op::Update { r, doc: mine, twice: false }, Op::Commit { r, info: None }]);
+                    v.extend([Op::Update { r: other, doc: theirs.clone(), twice: false }, Op::Commit { r: other, info: None }]);
+                    v.extend([Op::Meld { r, from: other }, Op::Refresh { r }, Op::Snapshot { r }, Op::Commit { r, info: None }]);
+                    v.extend([Op::Update { r: other, doc: with(&theirs, "snap-z", false), twice: false }, Op::Commit { r: other, info: None }]);
+                    v.extend([Op::Meld { r, from: other }, Op::Refresh { r }]);
+                    if self.rng.chance(1, 2) {
+                        v.extend([Op::Meld { r: other, from: r }, Op::Refresh { r: other }]);
+                    }
+                    v
+                }
+            }
             x if x == K::PastStage as usize => {
                 if w.replicas[r].time_travel {
                     vec![Op::Reload { r }]
@@ -1054,7 +1119,7 @@ impl Gen {
                     vec![Op::Reload { r }]
                 } else {
                     let mut doc = self.next_doc(w, r);
-                    let count = if self.rng.chance(1, 12) { self.rng.range(100, 140) } else { self.rng.range(10, 24) };
+                    let count = if self.rng.chance(1, 12) && !cfg!(feature = "sched") { self.rng.range(100, 140) } else { self.rng.range(10, 24) };
                     // every version also submitted a second time (nothing may change, at any chain length)
                     let twice = self.rng.chance(1, 3);
                     let mut v = vec![];
